@@ -292,8 +292,13 @@ class Engine:
             return None
         src = self.pick(cands)
         widths = [len(p.pins) for p in src.ports]
-        kind = self.r.choice(["same", "same", "last port wider", "last port wider", "widths permuted", "widths permuted"])
+        kind = self.r.choice(["same", "same", "same, port names rotated", "last port wider", "last port wider", "widths permuted", "widths permuted"])
         same = kind == "same"
+        names = [None] * len(widths)
+        if kind == "same, port names rotated":
+            # the ports of the sibling carry the SAME names as the source's, at other positions (re-pointing goes by position)
+            names = [p.name for p in src.ports]
+            names = names[1:] + names[:1]
         if kind == "last port wider":
             widths[-1] += 1
         elif kind == "widths permuted":
@@ -310,8 +315,8 @@ class Engine:
 
         def mk():
             d = sdn.Definition()
-            for w in widths:
-                d.create_port(pins=w or None)
+            for w, nm_ in zip(widths, names):
+                d.create_port(nm_, pins=w or None)
             return d
         return Op("Definition()", mk, "Definition(shape sibling,%s)" % kind, "valid")
 
@@ -377,6 +382,8 @@ class Engine:
             kw["lower_index"] = self.r.choice([0, 2])
         if self.r.random() < 0.2:
             kw["is_downto"] = self.r.choice([True, False])
+        if self.r.random() < 0.2:
+            kw["is_scalar"] = self.r.choice([True, True, False])      # (also with pins >= 2: stored as given, read back as False)
         if self.r.random() < 0.2:
             kw["properties"] = self.r.choice([{"k": 1}, self.ident_prop(), self.ident_prop()])
         return Op("Definition.create_port", lambda: d.create_port(nm, pins=pins, **kw), "create_port(%r,pins=%r,%s)" % (nm, pins, sorted(kw)), "random", d, (nm, kw.get("properties")))
